@@ -179,7 +179,7 @@ async def run_history(hist, base_name, params, res: Result, rig):
         else:
             mech = "C28.restored_run_id_differs"
         viol.append((mech, f"engine {e} is in run {r}; after {why} + re-registration the aggregator has run {got} "
-                           f"(recent engine row: {rec and rec['run_id']})"))
+                           f"(RecentEngines row: {'missing' if rec is None else 'run_id=' + str(rec['run_id'])})"))
 
     for i, m in enumerate(hist):
         kind = m[0]
